@@ -246,7 +246,7 @@ Proof.
     + eapply Ext_trans; [apply (Ext_cons e (x, None))|]. eapply IH. exact H.
   - intros c t e Ht He st env o st' e' H. cbn [exec] in H.
     destruct (eval names this st env c) as [[v s1]| |] eqn:Ev; cbn [rbind] in H; try discriminate.
-    destruct v as [[|]| | | | | | |]; try discriminate.
+    destruct v as [[|]| | | | | | | |]; try discriminate.
     + destruct (exec names this s1 env t) as [[[o1 s2] e1]| |] eqn:Et; cbn [rbind] in H; try discriminate.
       inversion H; subst. apply Ext_of_names, Ext_pop. eapply Ht. exact Et.
     + destruct e as [n|].
@@ -278,7 +278,7 @@ Proof.
     inversion H; subst. apply Ext_pop. eapply run_seq_ext; [|exact Er]. apply Forall_forall. intros x _. apply exec_ext.
   - cbn [exec] in H.
     destruct (eval names this st e c) as [[v s1]| |] eqn:Ev; cbn [rbind] in H; try discriminate.
-    destruct v as [[|]| | | | | | |]; try discriminate.
+    destruct v as [[|]| | | | | | | |]; try discriminate.
     + destruct (exec names this s1 e t) as [[[o1 s2] e1]| |] eqn:Et; cbn [rbind] in H; try discriminate.
       inversion H; subst. apply Ext_pop. eapply exec_ext. exact Et.
     + destruct f as [n|].
